@@ -13,7 +13,7 @@ ID = 'C10'
 
 MANIFEST = {
     'engine': 'crosshair',
-    'text': 'Three parts. (0) symx with z3 STRING variables: the real function runs on two rows whose constituent cells are symbolic strings of bounded length over the whole character set, and z3\'s string solver decides that equal interaction values imply equal value tuples and vice versa (order 2: cells <= 4 characters; order 3: <= 2). (1) CrossHair (symbolic execution with z3, symbolic strings) of the real compute_combined_features / combine_features source on a list-backed pandas stand-in with an injective stand-in for the 64-bit hash: the constituent cell values of two rows are symbolic strings; for every value assignment within the bound CrossHair must confirm over all paths that the interaction column is named by joining the constituent names with " AND ", that its two cells are equal if and only if the two rows agree on every constituent, that the original columns are untouched and that min(cap, C(m,k)) columns are produced. Counterexamples are replayed on the real build (real pandas, real xxhash). (2) The real function on REAL pandas frames with the real hash: two rows x three features, every cell chosen by the solver from an adversarial pool (empty string, values that are prefixes/suffixes of one another), label at every position, orders 2 and 3: equality pattern of every interaction column vs equality of the value tuples (covers library calls the list-backed stand-in does not model).',
+    'text': 'Three parts. (0) symx with z3 STRING variables: the real function runs on two rows whose constituent cells are symbolic strings of bounded length over the whole character set, and z3\'s string solver decides that equal interaction values imply equal value tuples and vice versa (order 2: cells <= 4 characters; order 3: <= 2). (1) CrossHair (symbolic execution with z3, symbolic strings) of the real compute_combined_features / combine_features source on a list-backed pandas stand-in with an injective stand-in for the 64-bit hash: the constituent cell values of two rows are symbolic strings; for every value assignment within the bound CrossHair must confirm over all paths that the interaction column is named by joining the constituent names with " AND ", that its two cells are equal if and only if the two rows agree on every constituent, that the original columns are untouched and that min(cap, C(m,k)) columns are produced. Counterexamples are replayed on the real build (real pandas, real xxhash). (2) The real function on REAL pandas frames with the real hash: two rows x three features, every cell chosen by the solver from an adversarial pool (empty string, values that are prefixes/suffixes of one another), label at every position, orders 2 and 3: equality pattern of every interaction column vs equality of the value tuples (covers library calls the list-backed stand-in does not model). Real-pandas conditions also cover three rows under five kinds of row index, cell values that spell missing-value markers (None, nan, null), and require the interaction values to carry at least 64 bits (replayed by a birthday search on 400000 distinct pairs).',
     'note': 'Per condition <= 4 symbolic characters in total over alphabets of <= 4 letters (incl. empty strings, a digit, a space, a unicode letter); orders 2 and 3 (order 4 outside); 64-bit hash collisions are outside (injective stub, as the statement allows); "score equals the score of the explicit tuple" follows from value equality + C02 and is not separately encoded.',
     'technique': 'CrossHair symbolic execution of the real Python source (z3 string/sequence theory), per condition "Confirmed over all paths" or a replayed counterexample',
 }
